@@ -1,7 +1,20 @@
 """C04: soundness of the circuit proof system against forged traces (shares the prove harness)."""
-from checks_c10 import prove_run
+from checks_c10 import prove_run, sched_violations
 
 PROPERTY = "C04"
+
+
+def c04_run(ctx):
+    violations, cov = prove_run(ctx, "C04", 4)
+    if not ctx.get("replay"):
+        # matrix-level forgeries: tampered cells of honest scheduled ALU matrices (incl. intermediate / b^2 columns)
+        # that the real AluAir::eval accepts although the decoded rows violate their relation
+        v2, n = sched_violations(ctx, {"accepts-invalid-row"})
+        violations += v2
+        if cov:
+            cov["evaluations"] += n
+            cov["rule"] += "; plus single-cell tampering of scheduled ALU matrices (real trace_to_matrix + real AluAir::eval through a recording builder), judged by an independent relation decoder"
+    return violations, cov
 
 CHECK = {
     "lean_modules": ["P3R.Props.C04", "P3R.Props.C04Full", "P3R.Witness.C04"],
@@ -10,7 +23,7 @@ CHECK = {
                  # composition: balanced bus + single creator (C09) + row constraints on cells => a satisfying assignment exists
                  "P3R.C04.bus_single_valued", "P3R.C04.genPrep_slots", "P3R.C04.rowsOk_sat", "P3R.C04.accepted_sat",
                  "P3R.C04.accepted_sat_genPrep", "P3R.Witness.C04.accepted_sat_nonvacuous"],
-    "run": lambda ctx: prove_run(ctx, "C04", 4),
+    "run": c04_run,
     "trusted_base": ["ideal STARK/LogUp: an accepted proof implies row constraints hold on some committed trace and the WitnessChecks bus is balanced as a signed multiset (DESIGN §2)"],
     "assumptions": ["D = 1 and single-step Horner rows in the Lean composition theorem (packed arities are covered by C11's packed2/3_iff); accepted_sat assumes no ALU operand is off the bus (role `skip`; 0 of 36k generated rows in the C09 run) and that a Const row's cell is the circuit's constant (false today: finding F4); permutation / recompose rows are not modelled"],
 }
